@@ -428,7 +428,8 @@ OrphanScan(x) ==
         RECURSIVE Go(_, _)
         Go(y, s) == IF s = {} THEN y
                     ELSE LET c == CHOOSE c \in s : TRUE
-                         IN Go(IF c \in DOMAIN y.e.orphaned /\ c \in DOMAIN y.e.pending THEN HandleReply(y, y.e.orphaned[c]) ELSE y, s \ {c})
+                         (* each parked reply is handled as in its own reply frame: what it publishes is named after ITS event *)
+                         IN Go(IF c \in DOMAIN y.e.orphaned /\ c \in DOMAIN y.e.pending THEN HandleReply([y EXCEPT !.t = c], y.e.orphaned[c]) ELSE y, s \ {c})
     IN Go(x, ready)
 
 (* ---- actions ------------------------------------------------------------------------ *)
